@@ -320,6 +320,12 @@ class QvmCode(BaseCode):
             ):
                 arg, = prev1.args
 
+                # The machine would have rounded a SINGLE operand to
+                # single precision when pushing it
+                if prev1.type_char == '!' and \
+                   expr.Type.SINGLE.can_hold(arg):
+                    arg = expr.Type.SINGLE.coerce(arg)
+
                 # Convert the argument to the dest type
                 cur_type = expr.Type.from_type_char(cur.type_char)
                 if cur_type.is_integral and \
